@@ -1,5 +1,143 @@
-(* C13 — placeholder; the theorems are added as BT/*Proofs.v land *)
+(* C13 — Bigtable: ReadModifyWriteRow increments and appends against the latest cell.
+   Only statements here; proofs are in BT/RmwProofs.v. *)
 From Coq Require Import List NArith ZArith Bool.
-From Emu.BT Require Import Types Mutate Server.
-Example C13_model_runs : snd (step nil (mkCall (BGetTable nil) 0%Z nil)) = fail cNotFound.
-Proof. reflexivity. Qed.
+Import ListNotations.
+From Emu.Common Require Import Bytes Str StrProofs.
+From Emu.BT Require Import Types Mutate Server CellSpec CellProofs RmwProofs.
+Local Open Scope Z_scope.
+
+(* the 8-byte big-endian codec *)
+Theorem C13_be64_roundtrip : forall z, be64_decode (be64_encode z) = wrap64 z.
+Proof. exact be64_roundtrip. Qed.
+Print Assumptions C13_be64_roundtrip.
+
+Theorem C13_be64_length : forall z, length (be64_encode z) = 8%nat.
+Proof. exact be64_length. Qed.
+Print Assumptions C13_be64_length.
+
+Theorem C13_be64_encode_decode : forall b, length b = 8%nat -> (forall x, In x b -> (x < 256)%N) ->
+  be64_encode (be64_decode b) = b.
+Proof. exact be64_encode_decode. Qed.
+Print Assumptions C13_be64_encode_decode.
+
+(* increment = add and wrap at 64 bits (two's complement) *)
+Theorem C13_rmw_increment_wraps : forall prev amt,
+  be64_decode (incr_value prev amt) = wrap64 (be64_decode prev + amt)
+  /\ length (incr_value prev amt) = 8%nat
+  /\ - two63 <= be64_decode (incr_value prev amt) < two63
+  /\ exists k, be64_decode (incr_value prev amt) = be64_decode prev + amt + k * two64.
+Proof. exact rmw_increment_wraps. Qed.
+Print Assumptions C13_rmw_increment_wraps.
+
+(* the model's loop: each rule computes one cell from the row as left by the previous rules,
+   writes it into the row and notes it in the response *)
+Theorem C13_rmw_rules_unfold : forall tf now rule rest fs res,
+  rmw_rules tf now (rule :: rest) fs res
+  = match rmw_new_cell tf now rule fs with
+    | None => None
+    | Some nc => rmw_rules tf now rest (rmw_write fs rule nc) (rmw_note res rule nc)
+    end.
+Proof. exact rmw_rules_cons. Qed.
+Print Assumptions C13_rmw_rules_unfold.
+
+(* one rule on a well-formed row *)
+Theorem C13_rmw_rule_spec : forall tf now rule fs nc,
+  fams_ok fs -> rmw_new_cell tf now rule fs = Some nc ->
+  let fam := fst (rule_target rule) in
+  let q := snd (rule_target rule) in
+  let old := cells_of fs fam q in
+  let fs' := rmw_write fs rule nc in
+  fams_ok fs'
+  /\ known_family tf fam = true
+  /\ c_ts nc = match old with c :: _ => Z.max (trunc_ms now) (c_ts c) | [] => trunc_ms now end
+  /\ match rule with
+     | RAppend _ _ v => c_val nc = match old with c :: _ => c_val c | [] => [] end ++ v
+     | RIncrement _ _ amt =>
+         be64_decode (c_val nc) = wrap64 (match old with c :: _ => be64_decode (c_val c) | [] => 0 end + amt)
+         /\ length (c_val nc) = 8%nat
+         /\ match old with c :: _ => length (c_val c) = 8%nat | [] => True end
+     | RUnset _ _ => False
+     end
+  /\ (exists r, cells_of fs' fam q = nc :: r)
+  /\ abs_fams fs' fam q (c_ts nc) = Some (c_val nc)
+  /\ (forall f q' t, (f, q', t) <> (fam, q, c_ts nc) -> abs_fams fs' f q' t = abs_fams fs f q' t).
+Proof. exact rmw_rule_spec. Qed.
+Print Assumptions C13_rmw_rule_spec.
+
+(* the head of a descending column is its newest cell *)
+Theorem C13_newest_is_max : forall c r, desc (c :: r) ->
+  cell_lookup (c :: r) (c_ts c) = Some (c_val c)
+  /\ forall t, cell_lookup (c :: r) t <> None -> t <= c_ts c.
+Proof. exact newest_is_max. Qed.
+Print Assumptions C13_newest_is_max.
+
+(* the response holds exactly the newly written cells: per touched column the last cell written
+   there (= that column's newest cell in the new row), nothing for untouched columns *)
+Theorem C13_rmw_response_spec : forall tf now rules fs fs' res,
+  fams_ok fs -> rmw_rules tf now rules fs [] = Some (fs', res) ->
+  fams_ok res /\ all_known tf res /\
+  forall f q, cells_of res f q = if existsb (targets f q) rules then firstn 1 (cells_of fs' f q) else [].
+Proof. exact rmw_response_spec. Qed.
+Print Assumptions C13_rmw_response_spec.
+
+(* failures *)
+Theorem C13_unknown_family_fails : forall tf now rules fs res rule,
+  In rule rules -> known_family tf (fst (rule_target rule)) = false ->
+  rmw_rules tf now rules fs res = None.
+Proof. exact rmw_unknown_family_fails. Qed.
+Print Assumptions C13_unknown_family_fails.
+
+Theorem C13_bad_increment_fails : forall tf now pre fam q amt post fs res fs1 res1 c r,
+  rmw_rules tf now pre fs res = Some (fs1, res1) ->
+  cells_of fs1 fam q = c :: r -> length (c_val c) <> 8%nat ->
+  rmw_rules tf now (pre ++ RIncrement fam q amt :: post) fs res = None.
+Proof. exact rmw_bad_increment_fails. Qed.
+Print Assumptions C13_bad_increment_fails.
+
+Theorem C13_rmw_error_atomic : forall s tbl key rules now coins t,
+  alookup tbl s = Some t ->
+  rmw_rules (t_fams t) now rules (get_row t key) [] = None ->
+  step s (mkCall (BReadModifyWrite tbl key rules) now coins) = (s, fail cUnknown).
+Proof. exact rmw_error_atomic. Qed.
+Print Assumptions C13_rmw_error_atomic.
+
+Theorem C13_unchanged_unless_ok : forall s tbl key rules now coins,
+  br_code (snd (step s (mkCall (BReadModifyWrite tbl key rules) now coins))) <> cOK ->
+  fst (step s (mkCall (BReadModifyWrite tbl key rules) now coins)) = s.
+Proof. exact rmw_step_unchanged_unless_ok. Qed.
+Print Assumptions C13_unchanged_unless_ok.
+
+(* success at server level *)
+Theorem C13_rmw_step_ok : forall s tbl key rules now coins t fs res,
+  server_ok s -> alookup tbl s = Some t ->
+  rmw_rules (t_fams t) now rules (get_row t key) [] = Some (fs, res) ->
+  let '(s', rsp) := step s (mkCall (BReadModifyWrite tbl key rules) now coins) in
+  server_ok s'
+  /\ rsp = ok (YRows [mkRow key (scrub_fams (t_fams t) res)])
+  /\ cm_eq (abs_fams (scrub_fams (t_fams t) res)) (abs_fams res)
+  /\ (exists t', alookup tbl s' = Some t' /\ t_fams t' = t_fams t
+                 /\ cm_eq (abs_fams (get_row t' key)) (abs_fams fs)
+                 /\ forall k, k <> key -> alookup k (t_rows t') = alookup k (t_rows t))
+  /\ (forall n, n <> tbl -> alookup n s' = alookup n s).
+Proof. exact rmw_step_ok. Qed.
+Print Assumptions C13_rmw_step_ok.
+
+(* non-vacuity: a well-formed row with a cell in the future of the clock; increment + append
+   succeed (timestamp arbitration both ways); append-then-increment on the same column fails;
+   increment on an existing EMPTY value fails; wrap-around at the int64 boundary *)
+Example C13_nonvacuous :
+  let tf := [([102%N], None)] in
+  let fs := [mkFam [102%N] [mkCol [113%N] [mkCell 5000 [0;0;0;0;0;0;0;1]%N []; mkCell 1000 [7%N] []];
+                            mkCol [101%N] [mkCell 2000 [] []]]] in
+  fams_ok fs
+  /\ rmw_rules tf 3500 [RIncrement [102%N] [113%N] 2; RAppend [102%N] [120%N] [1%N]] fs []
+     = Some ([mkFam [102%N] [mkCol [113%N] [mkCell 5000 [0;0;0;0;0;0;0;3]%N []; mkCell 1000 [7%N] []];
+                             mkCol [101%N] [mkCell 2000 [] []];
+                             mkCol [120%N] [mkCell 3000 [1%N] []]]],
+             [mkFam [102%N] [mkCol [113%N] [mkCell 5000 [0;0;0;0;0;0;0;3]%N []];
+                             mkCol [120%N] [mkCell 3000 [1%N] []]]])
+  /\ rmw_rules tf 9000 [RAppend [102%N] [113%N] [9%N]; RIncrement [102%N] [113%N] 1] fs [] = None
+  /\ rmw_rules tf 9000 [RIncrement [102%N] [101%N] 1] fs [] = None
+  /\ rmw_rules tf 9000 [RIncrement [103%N] [101%N] 1] fs [] = None
+  /\ be64_decode (incr_value [127; 255; 255; 255; 255; 255; 255; 255]%N 1) = - 9223372036854775808.
+Proof. split; [apply fams_okb_sound; reflexivity|]. vm_compute. auto 10. Qed.
